@@ -16,11 +16,32 @@ import (
 //   - len(Pos) == len(Info); the cross-axis advance is zero.
 var vfStubCalls int
 
+// which face a stubbed harfbuzz.Font was built for (harfbuzz.Font keeps its face in an unexported field)
+var vfStubFaceOf map[*harfbuzz.Font]int
+var vfStubFaces []*font.Face
+
+func vfFaceID(f *harfbuzz.Font) uint64 {
+	if vfStubFaceOf == nil {
+		return 0
+	}
+	return uint64(vfStubFaceOf[f])
+}
+
 func vfS32(x uint64) int32 { return int32(int64(x)<<44>>44) } // 20 significant bits, sign extended
 
 func vfInstallHarfbuzzStub() {
 	vfStubCalls = 0
-	harfbuzz.VfHook_NewFont = func(face harfbuzz.Face) *harfbuzz.Font { return &harfbuzz.Font{} }
+	harfbuzz.VfHook_NewFont = func(face harfbuzz.Face) *harfbuzz.Font {
+		f := &harfbuzz.Font{}
+		if vfStubFaceOf != nil {
+			for i, x := range vfStubFaces {
+				if x == face {
+					vfStubFaceOf[f] = i + 1
+				}
+			}
+		}
+		return f
+	}
 	harfbuzz.VfHook_Font_GlyphExtents = func(f *harfbuzz.Font, g harfbuzz.GID) (harfbuzz.GlyphExtents, bool) {
 		a, b := uint64(g), uint64(uint32(f.XScale))
 		ok := vfUF("extOK", a, b)&1 == 1
@@ -50,7 +71,7 @@ func vfInstallHarfbuzzStub() {
 		vertical := dir == harfbuzz.TopToBottom || dir == harfbuzz.BottomToTop
 		// everything below is a function of this key
 		key := func(i int) []uint64 {
-			return []uint64{uint64(i), uint64(n), uint64(first), uint64(dir), uint64(b.Props.Script), uint64(uint32(f.XScale)), uint64(len(feats))}
+			return []uint64{uint64(i), uint64(n), uint64(first), uint64(dir), uint64(b.Props.Script), uint64(uint32(f.XScale)), uint64(len(feats)), vfFaceID(f)}
 		}
 		mm := int(vfUF("hbCount", key(0)...) & 7) // no modulo: division by a non power of two is costly to bit-blast
 		vfAssume(mm <= n+1)
